@@ -410,7 +410,7 @@ Inductive pa_out := POErr | POPanic | POk (ch : cur_choice) (a : pa_act) (cached
 Definition pa_run (t : pa_tests) : pa_out :=
   match exec 60 (pa_env t) process_acquire_priv_code [] with
   | Stuck => POPanic
-  | Running _ | Cont _ => POBad
+  | Running _ | Cont _ | Brk _ => POBad
   | Returned s v =>
       if String.eqb v """"", """", err" then POErr
       else match choice_of s, sget s "d.CurrentPriv" with
